@@ -671,7 +671,10 @@ class TeX(object):
         ParameterCommand.disable()
 
         if charsubs is None:
-            charsubs = getattr(self.ownerDocument, 'charsubs', [])
+            if self.ownerDocument.context.isMathMode:
+                charsubs = []
+            else:
+                charsubs = getattr(self.ownerDocument, 'charsubs', [])
 
         if type in ['Dimen','Length','Dimension']:
             n = self.readDimen()
